@@ -13,7 +13,7 @@ func init() {
 		Rule:       "Each run: one bufiox writer (io.Writer-backed over a simulated Sink, or bytes-backed over a nil/empty/partly filled/full caller slice) driven through 1..300 operations from {Malloc(n), WriteBinary, late/partial/re-fill of any open region, Flush, negative counts}; every region has its own keyed pattern; the Sink fails at a tape-chosen k-th write accepting a strict prefix; allocator mode and co-tenant per run. Oracle: region-list model (exactly-once, in order, WrittenLen, sticky error, target slice).",
 		Components: realComponents,
 		Probes: []string{"writer_alloc_or_growth", "flush_with_0_pending", "flush_with_1_pending", "flush_with_2_or_more_pending", "region_filled_after_growth",
-			"writebinary_larger_than_buffer", "sink_error_at_first_flush", "sink_error_at_later_flush", "sticky_error_checked", "bytes_writer_grown_out_of_initial"},
+			"writebinary_larger_than_buffer", "sink_error_at_first_flush", "sink_error_at_later_flush", "sticky_error_checked", "bytes_writer_grown_out_of_initial", "every_kth_sink_write_enumerated"},
 	})
 }
 
@@ -142,8 +142,46 @@ func (sc *writerScenario) step(st *sim.Stream, weights []int) {
 func runC05(c *sim.Ctx) {
 	cfg := c.Cfg
 	c.SetupAlloc(allocCfg(cfg, false))
+	den := 25
+	if c.Tier == "thorough" {
+		den = 6
+	}
+	if !cfg.Chance(1, den) {
+		c05Body(c, 0)
+		return
+	}
+	// fault enumeration: the same history is executed fault-free, then again with the sink
+	// failing at its k-th write for every k up to the number of writes it saw
+	c.Count("probe.every_kth_sink_write_enumerated")
+	first := c.Fork("e/", nil)
+	writes := c05Body(first, -1)
+	rec := first.ForkRecorded()
+	c.Join(first)
+	for k := 1; k <= writes && k <= 40; k++ {
+		ch := c.Fork("e/", rec)
+		c05Body(ch, k)
+		c.Join(ch)
+	}
+}
+
+// c05Body runs one writer history on c's tape. failAt: 0 = tape decides about sink faults,
+// -1 = no sink fault, k>0 = the sink fails at its k-th write. Returns the sink's write count.
+func c05Body(c *sim.Ctx, failAt int) int {
+	cfg := c.Cfg
 	sc := newWriterScenario(c)
 	m := sc.m
+	if sc.sink != nil && failAt != 0 {
+		if failAt < 0 {
+			sc.sink.FailAt = 0
+		} else {
+			sc.sink.FailAt = failAt
+			sc.sink.AcceptEighths = failAt * 3
+			if sc.sink.Err == nil {
+				sc.sink.Err = sim.TermError(2)
+			}
+			c.Count("fault.cfg.sink_fails_at_kth_write")
+		}
+	}
 	co := newCoTenant(c, cfg.Chance(1, 2))
 	weights := []int{3 + cfg.Choose(4), cfg.Choose(4), cfg.Choose(4), cfg.Choose(3), cfg.Choose(2)}
 	maxOps := 60
@@ -192,4 +230,8 @@ func runC05(c *sim.Ctx) {
 	}
 	co.finish()
 	mcache.SimCheckPoison()
+	if sc.sink != nil {
+		return sc.sink.Writes
+	}
+	return 0
 }
